@@ -918,6 +918,20 @@ def _hz_truthy_ok(n, xs):
             ring.add(x)
             out += 1
     return out
+
+
+def _hz_rebind(frontier, entry, cap):
+    frontier.append(entry)
+    if len(frontier) > cap:
+        frontier = sorted(frontier)[:cap]
+    return len(frontier)
+
+
+def _hz_rebind_ok(frontier, entry, cap):
+    frontier.append(entry)
+    if len(frontier) > cap:
+        frontier[:] = sorted(frontier)[:cap]
+    return len(frontier)
 '''
 
 
@@ -966,6 +980,9 @@ def controls(ctx, host_module: str, kinds: Sequence[str]) -> str:
     if "truthy" in kinds:
         g = lambda nm: m.funcs[[k for k in m.funcs if k.split(".")[-1] == nm][0]]
         got["truthy"] = (len(optional_container_truthiness(pc, g("_hz_truthy"))), len(optional_container_truthiness(pc, g("_hz_truthy_ok"))))
+    if "rebind" in kinds:
+        g = lambda nm: m.funcs[[k for k in m.funcs if k.split(".")[-1] == nm][0]]
+        got["rebind"] = (len(lost_param_rebinding(pc, g("_hz_rebind"))), len(lost_param_rebinding(pc, g("_hz_rebind_ok"))))
     bad = {k: v for k, v in got.items() if not (v[0] >= 1 and v[1] == 0)}
     if bad:
         raise AnalysisError(f"hazard positive control failed: {bad}")
@@ -1079,3 +1096,47 @@ def node_exprs_safe(n):
         return node_exprs(n)
     except Exception:
         return []
+
+
+def lost_param_rebinding(ctx, fn) -> List[Tuple[str, ast.AST]]:
+    """a function edits the object a parameter refers to in place (append / heappush / subscript store ...) and ALSO re-binds
+    that parameter name to a new object derived from it (`p = sorted(p)[:n]`, `p = nsmallest(n, p)`) without returning it or
+    writing it back through the old object (`p[:] = ..`): the caller still holds the old object, so everything done from the
+    re-binding on - the trim, the filter, the reorder - is lost.  Returns (parameter, rebinding statement)."""
+    out = []
+    params = [p for p in fn.params if p not in ("self", "cls")]
+    if not params:
+        return out
+    returned = set()
+    for r in [x for x in walk_no_defs(fn.node) if isinstance(x, ast.Return) and x.value is not None]:
+        # handed back as the object itself (or as an element of a returned tuple / list), not merely measured (len(p))
+        vals = [r.value] + (list(r.value.elts) if isinstance(r.value, (ast.Tuple, ast.List)) else [])
+        returned |= {y.id for y in vals if isinstance(y, ast.Name)}
+    cfg = ctx.cfg(fn)
+
+    def mutates(x: ast.AST, p: str) -> bool:
+        if isinstance(x, ast.Call):
+            if isinstance(x.func, ast.Attribute) and x.func.attr in MUTATING_TAILS and isinstance(x.func.value, ast.Name) and x.func.value.id == p:
+                return True
+            if (dotted(x.func) or "").split(".")[-1] in ("heappush", "heappop", "heapify", "heapreplace", "heappushpop", "shuffle", "insort") and x.args and isinstance(x.args[0], ast.Name) and x.args[0].id == p:
+                return True
+        if isinstance(x, (ast.Assign, ast.AugAssign)):
+            for t in (x.targets if isinstance(x, ast.Assign) else [x.target]):
+                if isinstance(t, ast.Subscript) and isinstance(t.value, ast.Name) and t.value.id == p:
+                    return True
+        return False
+
+    for p in params:
+        if p in returned:
+            continue
+        if any(isinstance(y, (ast.Nonlocal, ast.Global)) and p in y.names for y in walk_no_defs(fn.node)):
+            continue  # the re-binding is visible to the owner of the name
+        mut_nodes = [n for n in cfg.nodes if n.ast is not None and n.kind in ("stmt", "cond", "iter") and any(mutates(x, p) for x in (walk_no_defs(n.ast) if n.kind == "stmt" else ast.walk(n.ast)))]
+        for n in cfg.nodes:
+            x = n.ast
+            if n.kind == "stmt" and isinstance(x, ast.Assign) and any(isinstance(t, ast.Name) and t.id == p for t in x.targets) and any(isinstance(y, ast.Name) and y.id == p for y in ast.walk(x.value)) \
+                    and not isinstance(x.value, ast.Name):
+                # the caller's object was edited BEFORE the name moved on: the caller was meant to see this function's work
+                if any(n in cfg.reach([m], include_start=False) for m in mut_nodes if m is not n):
+                    out.append((p, x))
+    return out
